@@ -197,3 +197,11 @@ Theorem reopen_resets : forall cs lay s, cfg_ok cs lay ->
    OutUpd true).
 Proof. exact ProofsE.reopen_resets. Qed.
 Print Assumptions reopen_resets.
+
+(* REFUTED (real deviation, reported): File::completed_chunks() <= File::size_chunks() does not hold;
+   witness cs = 1, files 1,1,1, mark_completed(1); mark_completed(2) leaves file 2 at 2 of 1 *)
+Theorem file_completed_bounded_refuted :
+  exists cs lay ops, cfg_ok cs lay /\
+    ~ file_completed_bounded (mk_cfg cs lay) (fst (run (mk_cfg cs lay) (init_state (mk_cfg cs lay)) ops)).
+Proof. exact ProofsE.file_completed_bounded_refuted. Qed.
+Print Assumptions file_completed_bounded_refuted.
